@@ -164,9 +164,13 @@ def run_unit(unit, ctx):
             if y < 0:
                 continue
             ns += [G.dn_from_cal(y, mo, d) * 86400 - EPOCH, G.dn_from_cal(y, mo, d) * 86400 - EPOCH + 86399]
+        # whole Gregorian cycles (146097 days) from the epoch, +- a day and +- a second, several cycles out
+        for k in (1, 2, 3, 5, 10, 19, -1, -2, -4):
+            base = k * 146097 * 86400
+            ns += [base, base - 1, base + 1, base - 86400, base + 86400, base + 43200, base - 86400 + 32696]
         for n in ns:
             ctx.state_count += 1
-            check_count(ctx, n, seams=(0, -330), variants=abs(n) < 10 ** 10)
+            check_count(ctx, n, seams=(0, -330, -210), variants=abs(n) < 10 ** 10)
     elif u == "fractional":
         for n in (0.5, 0.25, 1.75, 86399.5, 86400.25, 1e9 + 0.5, 2 ** 31 + 0.125, 59.999, 0.001, 1234567.891):
             ctx.state_count += 1
